@@ -1146,43 +1146,132 @@ MUTATOR_EXEMPT = {
 }
 
 
+def resolve_cast(v):
+    """np.uintN(x) / int(x) -> x"""
+    while isinstance(v, ast.Call) and len(v.args) == 1 and not v.keywords and (dotted(v.func) or "").split(".")[-1] in (
+            "int", "uint8", "uint16", "uint32", "uint64", "int64"):
+        v = v.args[0]
+    return v
+
+
+def _unwrap_copy(v):
+    """x.copy() / Counter(x) / dict(x) / copy.copy(x) -> x"""
+    while isinstance(v, ast.Call):
+        if isinstance(v.func, ast.Attribute) and v.func.attr == "copy" and not v.args and not v.keywords:
+            v = v.func.value
+        elif (dotted(v.func) or "") in ("Counter", "collections.Counter", "dict", "copy.copy", "copy.deepcopy") and len(v.args) == 1 and not v.keywords:
+            v = v.args[0]
+        else:
+            break
+    return v
+
+
 def rule_mutators(ctx):
-    """Every method that writes a persistent table either bumps n_added_records[0] through its kernel or rebuilds the cache."""
+    """Every method that writes a persistent table either bumps n_added_records[0] through its kernel or rebuilds the cache -- or
+    resets the tables together with the cache (clear), or hands a freshly built object the tables AND the cache they belong to (copy)."""
     F = facts_of(ctx)
     cls = ctx.model.cls(*HH)
     tables = {"lhh", "lhh_count", "key_lens", "n_added_records"}
-    ks = hh_kernels(F)
+    cache = ("candidate_set", "n_added_sort", "threshold_sort")
+
+    def recv_attr(t):
+        """(receiver name, attribute) of `name.attr` / `name.attr[...]`."""
+        if isinstance(t, ast.Subscript):
+            t = t.value
+        if isinstance(t, ast.Attribute) and isinstance(t.value, ast.Name):
+            return t.value.id, t.attr
+        return None, None
+
+    def is_zero_fill(n):
+        """self.T[...] = 0 over full slices"""
+        if isinstance(n, ast.Assign) and len(n.targets) == 1 and isinstance(n.targets[0], ast.Subscript) and const_int(n.value) == 0:
+            sl = n.targets[0].slice
+            parts = sl.elts if isinstance(sl, ast.Tuple) else [sl]
+            return all((isinstance(x, ast.Slice) and x.lower is None and x.upper is None and x.step is None) or
+                       (isinstance(x, ast.Constant) and x.value is Ellipsis) for x in parts)
+        return False
+
     for name, meth in cls.methods.items():
-        writes = False
         how = []
+        self_writes, zero_fills, other_writes = [], set(), {}        # other_writes: local receiver -> {table: source expr}
         for c in F.calls_from(meth):
             if c.callee.is_kernel:
                 wr = F.effects.written_params(c.callee)
                 for p, a in c.argmap.items():
                     if self_attr(a) in tables and p in wr:
-                        writes = True
+                        self_writes.append(c.node)
                         how.append(c)
         for n in walk_no_nested(meth.node):
             if isinstance(n, ast.Call) and dotted(n.func) in ("np.copyto", "numpy.copyto") and n.args:
-                d = dotted(n.args[0]) or ""
-                if d.split(".")[-1] in tables:
-                    writes = True
+                r, a = recv_attr(n.args[0])
+                if a in tables:
+                    if r is not None and r != "self":
+                        other_writes.setdefault(r, {})[a] = n.args[1] if len(n.args) > 1 else None
+                    else:
+                        self_writes.append(n)
+            if isinstance(n, ast.Call) and isinstance(n.func, ast.Attribute) and n.func.attr == "fill" and self_attr(n.func.value) in tables:
+                self_writes.append(n)
+                if n.args and const_int(n.args[0]) == 0:
+                    zero_fills.add(self_attr(n.func.value))
             if isinstance(n, (ast.Assign, ast.AugAssign)):
                 tg = n.targets if isinstance(n, ast.Assign) else [n.target]
                 for t in tg:
-                    if self_attr(t) in tables or (isinstance(t, ast.Subscript) and self_attr(t.value) in tables):
-                        writes = True
-        if not writes:
+                    r, a = recv_attr(t)
+                    if a not in tables:
+                        continue
+                    if r == "self":
+                        self_writes.append(n)
+                        if is_zero_fill(n):
+                            zero_fills.add(a)
+                    elif r is not None:
+                        other_writes.setdefault(r, {})[a] = n.value if isinstance(t, ast.Subscript) and isinstance(n, ast.Assign) else None
+        if not self_writes and not other_writes:
             continue
         if name in MUTATOR_EXEMPT:
             ctx.note("mutators: %s exempt -- %s" % (name, MUTATOR_EXEMPT[name]))
             continue
+        attr_stores = {}
+        for n in walk_no_nested(meth.node):
+            if isinstance(n, ast.Assign) and len(n.targets) == 1:
+                r, a = recv_attr(n.targets[0])
+                if a in cache and not isinstance(n.targets[0], ast.Subscript):
+                    attr_stores.setdefault(r, {})[a] = n.value
+        regen_on = {dotted(n.func.value) for n in walk_no_nested(meth.node) if isinstance(n, ast.Call) and isinstance(n.func, ast.Attribute)
+                    and n.func.attr == "generate_candidate_set"}
+        # -- writes into the tables of another (freshly built) object: it must also get a cache that belongs to those tables
+        for r, tw in sorted(other_writes.items()):
+            cs = attr_stores.get(r, {})
+            copied = all(f in cs and self_attr(_unwrap_copy(cs[f])) == f for f in cache) and all(
+                t in tw and tw[t] is not None and self_attr(tw[t]) == t for t in tables)
+            # a freshly constructed object has the empty cache of n_added == 0: handing it all four tables (the counters with them)
+            # makes its first query a cache miss unless nothing was ever added, in which case the empty cache is right
+            fresh = any(isinstance(n, ast.Assign) and len(n.targets) == 1 and isinstance(n.targets[0], ast.Name) and n.targets[0].id == r
+                        and isinstance(n.value, ast.Call) and (dotted(n.value.func) in (cls.name, "cls", "self.__class__")
+                                                                or (isinstance(n.value.func, ast.Call) and dotted(n.value.func.func) == "type"))
+                        for n in walk_no_nested(meth.node))
+            whole = all(t in tw and tw[t] is not None and self_attr(tw[t]) == t for t in tables)
+            if r in regen_on or copied or (fresh and whole and not cs):
+                okk, why = True, ""
+            elif cs:
+                okk, why = None, "`%s` gets tables and some cache fields in a way the analysis does not follow" % r
+            else:
+                okk, why = False, "%s fills the tables of `%s` but neither rebuilds its candidate set nor hands it the cache that belongs to them" % (meth.qualname, r)
+            ctx.ob("mutators", meth, meth.node, "%s writes the tables of `%s`" % (meth.qualname, r),
+                   "an object that receives tables also receives a matching candidate cache (rebuilt, or copied together with all four tables)", okk, why)
+        if not self_writes:
+            continue
         # accepted: all table-writing kernels called also write n_added_records (nadd-once/sumcounters decide the amount),
-        # or the method calls generate_candidate_set afterwards
+        # or the method calls generate_candidate_set afterwards, or everything -- tables, counters and cache -- is reset together
         bumps = bool(how) and all("n_added_records" in {self_attr(a) for p, a in c.argmap.items()
                                                         if p in F.effects.written_params(c.callee)} for c in how)
-        regen = any(isinstance(n, ast.Call) and (dotted(n.func) or "").endswith(".generate_candidate_set") for n in walk_no_nested(meth.node))
-        okk = bumps or regen
+        regen = "self" in regen_on
+        cs = attr_stores.get("self", {})
+        cset = cs.get("candidate_set")
+        empty_counter = isinstance(cset, ast.Call) and not cset.args and not cset.keywords and (dotted(cset.func) or "").split(".")[-1] in ("Counter", "dict")
+        reset = not how and zero_fills >= tables and empty_counter and "n_added_sort" in cs and const_int(resolve_cast(cs["n_added_sort"])) == 0
+        okk = bumps or regen or reset
+        why = "" if okk else "%s changes the tables without changing n_added_records[0] and without rebuilding the candidate set" % meth.qualname
+        if not okk and not how and cs:
+            okk, why = None, "%s rewrites the tables and touches the cache fields %s in a way the analysis does not follow" % (meth.qualname, sorted(cs))
         ctx.ob("mutators", meth, meth.node, "%s writes the tables" % meth.qualname,
-               "a state change invalidates the candidate cache (n_added grows) or rebuilds it", okk,
-               "" if okk else "%s changes the tables without changing n_added_records[0] and without rebuilding the candidate set" % meth.qualname)
+               "a state change invalidates the candidate cache (n_added grows) or rebuilds it", okk, why)
